@@ -217,6 +217,9 @@ func (SMRespEngine) Gen(prop, tier string, seed uint64, yield func(c any) bool) 
 	}
 	// part 2: seeded adversarial deliveries over histories
 	n := 120000
+	if prop != "C03" {
+		n = 40000
+	}
 	if tier == "thorough" {
 		n = 6000000
 	}
